@@ -673,6 +673,18 @@ def install(pool=False):
     event.Event = DEvent
     event.RLock = DRLock
     event.GLOBAL_HANDLER.lock = _QuietRLock()
+    # the exit flag is a plain attribute written by the exit hook and read by every worker loop without a
+    # lock: its write has to be a scheduling point like any other shared access
+    class _ExitFlag(object):
+        def __get__(self, obj, typ=None):
+            return self if obj is None else obj.__dict__.get("_verif_shutdown", False)
+
+        def __set__(self, obj, v):
+            if v:
+                switch("exitflag.write")
+            obj.__dict__["_verif_shutdown"] = v
+    event.GLOBAL_HANDLER.__dict__.pop("shutdown", None)
+    event.ShutdownAwareEventHandler.shutdown = _ExitFlag()
     common.RLock = DRLock
     helpers.RLock = DRLock
     helpers.Lock = DLock
